@@ -383,17 +383,268 @@ func firstDiff(a, b [][]byte) int {
 	return -1
 }
 
+// ---------- long-run scenario ----------
+// One player on one backend (client threshold 256, backend threshold 64, so every packet below is
+// compressed on the way in and most on the way out), >= 45,000 pass-through packets clientbound, then
+// >= 2,000 serverbound, in the same process as all other runs (gate's buffer pools are process-wide
+// and re-calibrate after tens of thousands of uses). Compared in Go on (index, length, SHA-256).
+
+type longDirResult struct {
+	up               bool
+	nSent, nRecv     int
+	dSent, dRecv     []byte
+	firstDiff        int
+	expLen, actLen   int
+	expHead, actHead []byte
+	ids              []int
+	complete         bool
+	bytes            int
+	secs             float64
+}
+
+type longResult struct {
+	ver      e2eb.Version
+	tc, ts   int
+	setupErr string
+	dirs     []longDirResult
+	upTable  []string
+	dnTable  []string
+}
+
+func chain(prev []byte, idx int, p []byte) []byte {
+	h := sha256.New()
+	h.Write(prev)
+	var b [8]byte
+	binary.BigEndian.PutUint32(b[:4], uint32(idx))
+	binary.BigEndian.PutUint32(b[4:], uint32(len(p)))
+	h.Write(b[:])
+	d := sha256.Sum256(p)
+	h.Write(d[:])
+	return h.Sum(nil)
+}
+
+func longRun(seed uint64, nDown, nUp int) (res longResult) {
+	r := lib.NewRng(seed)
+	res.ver = e2eb.Versions[r.Intn(len(e2eb.Versions))]
+	res.tc, res.ts = 256, 64
+	v := res.ver
+	upT, upUnknown, _, _ := table(proto.ServerBound, v.Protocol)
+	dnT, dnUnknown, _, _ := table(proto.ClientBound, v.Protocol)
+	res.upTable, res.dnTable = upT, dnT
+	be, err := e2eb.NewBackend("alpha", func(int) e2eb.Script { return e2eb.Script{Do: e2eb.Accept, Threshold: res.ts} })
+	if err != nil {
+		res.setupErr = "backend: " + err.Error()
+		return
+	}
+	defer be.Close()
+	px, err := e2eb.StartProxy(e2eb.ProxyOpts{ClientThreshold: res.tc, Try: []string{"alpha"}, ConnectionTimeoutMs: 60000})
+	if err != nil {
+		res.setupErr = "proxy: " + err.Error()
+		return
+	}
+	defer px.Close()
+	if _, err = px.Register(be); err != nil {
+		res.setupErr = "register: " + err.Error()
+		return
+	}
+	cl, err := e2eb.Dial(px.Addr(), v, "Longrun")
+	if err != nil {
+		res.setupErr = "dial: " + err.Error()
+		return
+	}
+	defer cl.Close()
+	if err = cl.Login("localhost", 25565); err != nil {
+		res.setupErr = "login: " + err.Error()
+		return
+	}
+	if !cl.WaitJoins(1, 30*time.Second) {
+		res.setupErr = "no JoinGame"
+		return
+	}
+	pl := px.Player("Longrun", 5*time.Second)
+	for i := 0; pl != nil && i < 6000 && e2eb.CurrentServerName(pl) == ""; i++ {
+		time.Sleep(5 * time.Millisecond)
+	}
+	if pl == nil || e2eb.CurrentServerName(pl) != "alpha" {
+		res.setupErr = "player never got a current server"
+		return
+	}
+	bc := be.WaitConn(0, time.Second)
+	if bc == nil {
+		res.setupErr = "no backend connection"
+		return
+	}
+	one := func(up bool, n int, unknown []int, send func([][]byte) error, get func() [][]byte, recvThr int) longDirResult {
+		t0 := time.Now()
+		d := longDirResult{up: up, firstDiff: -1}
+		dir := "down"
+		if up {
+			dir = "up"
+		}
+		// a handful of one-byte unknown ids
+		var ids []int
+		for _, u := range unknown {
+			if u < 0x80 && len(ids) < 5 {
+				ids = append(ids, u)
+			}
+		}
+		d.ids = ids
+		start, end := sentinel(-1, dir, false, unknown), sentinel(-1, dir, true, unknown)
+		if err := send([][]byte{start}); err != nil {
+			return d
+		}
+		type rec struct {
+			n    int
+			sum  [32]byte
+			head []byte
+		}
+		sent := make([]rec, 0, n)
+		var batch [][]byte
+		dig := make([]byte, 32)
+		for i := 0; i < n; i++ {
+			var ln int
+			switch x := r.Intn(100); {
+			case x < 88: // just above the receiving side's threshold: compressed on the way out
+				ln = recvThr + 1 + r.Intn(180)
+			case x < 97:
+				ln = 1 + r.Intn(recvThr+1)
+			default:
+				ln = 2000 + r.Intn(18000)
+			}
+			p := e2eb.MakePayload(ids[r.Intn(len(ids))], r.Bytes(ln-1))
+			sent = append(sent, rec{len(p), sha256.Sum256(p), append([]byte(nil), head(p)...)})
+			dig = chain(dig, i, p)
+			d.bytes += len(p)
+			batch = append(batch, p)
+			if len(batch) == 64 || i == n-1 {
+				if err := send(batch); err != nil {
+					break
+				}
+				batch = batch[:0]
+			}
+		}
+		d.nSent, d.dSent = len(sent), dig
+		_ = send([][]byte{end})
+		// wait for the end sentinel (or for the stream to stall)
+		deadline := time.Now().Add(240 * time.Second)
+		var all [][]byte
+		si, ei, from := -1, -1, 0
+		lastLen, lastChange := 0, time.Now()
+		for {
+			all = get()
+			if si < 0 {
+				si = indexOf(all, start, 0)
+			}
+			if si >= 0 {
+				if from <= si {
+					from = si + 1
+				}
+				if ei = indexOf(all, end, from); ei >= 0 {
+					break
+				}
+				if len(all) > 0 {
+					from = len(all)
+				}
+			}
+			if len(all) != lastLen {
+				lastLen, lastChange = len(all), time.Now()
+			}
+			if time.Now().After(deadline) || time.Since(lastChange) > 45*time.Second {
+				break
+			}
+			time.Sleep(5 * time.Millisecond)
+		}
+		d.complete = ei >= 0
+		var recv [][]byte
+		switch {
+		case si < 0:
+		case ei >= 0:
+			recv = all[si+1 : ei]
+		default:
+			recv = all[si+1:]
+		}
+		d.nRecv = len(recv)
+		rd := make([]byte, 32)
+		for i, p := range recv {
+			rd = chain(rd, i, p)
+			if d.firstDiff < 0 && (i >= len(sent) || sent[i].n != len(p) || sent[i].sum != sha256.Sum256(p)) {
+				d.firstDiff = i
+				d.actLen, d.actHead = len(p), append([]byte(nil), head(p)...)
+				if i < len(sent) {
+					d.expLen, d.expHead = sent[i].n, sent[i].head
+				}
+			}
+		}
+		d.dRecv = rd
+		if d.firstDiff < 0 && len(recv) < len(sent) {
+			d.firstDiff = len(recv)
+			d.expLen, d.expHead = sent[len(recv)].n, sent[len(recv)].head
+		}
+		d.secs = time.Since(t0).Seconds()
+		return d
+	}
+	res.dirs = append(res.dirs, one(false, nDown, dnUnknown, bc.SendAll, cl.Received, res.tc))
+	res.dirs = append(res.dirs, one(true, nUp, upUnknown, cl.SendAll, bc.Received, res.ts))
+	return
+}
+
+func emitLong(out *lib.Out, res longResult) {
+	if res.setupErr != "" {
+		out.GoViolation(map[string]any{"known": nil, "index": -1, "what": "C15 long run could not bring a player to play on the backend", "version": res.ver.Name, "error": res.setupErr})
+		res.dirs = []longDirResult{{up: false, firstDiff: -1, dSent: make([]byte, 32), dRecv: make([]byte, 32)}, {up: true, firstDiff: -1, dSent: make([]byte, 32), dRecv: make([]byte, 32)}}
+	}
+	for _, d := range res.dirs {
+		ta, tb, tbl, dir := res.ts, res.tc, res.dnTable, "clientbound"
+		if d.up {
+			ta, tb, tbl, dir = res.tc, res.ts, res.upTable, "serverbound"
+		}
+		fd := "None"
+		if d.firstDiff >= 0 {
+			fd = lib.Some(lib.N(uint64(d.firstDiff)))
+		}
+		ids := make([]string, len(d.ids))
+		for i, id := range d.ids {
+			ids[i] = lib.N(uint64(id))
+		}
+		term := lib.App("Check.C15.long", lib.N(uint64(res.ver.Protocol)), lib.Bool(d.up), lib.Z(int64(ta)), lib.Z(int64(tb)),
+			lib.List(tbl), lib.List(ids), lib.N(uint64(d.nSent)), lib.N(uint64(d.nRecv)), lib.Bytes(d.dSent), lib.Bytes(d.dRecv),
+			fd, lib.N(uint64(d.expLen)), lib.N(uint64(d.actLen)), lib.Bytes(d.expHead), lib.Bytes(d.actHead))
+		desc := map[string]any{
+			"kind": "long-run", "version": res.ver.Name, "direction": dir, "threshold_sender_side": ta, "threshold_receiver_side": tb,
+			"sent": d.nSent, "received": d.nRecv, "bytes": d.bytes, "end_sentinel_arrived": d.complete, "seconds": fmt.Sprintf("%.1f", d.secs),
+			"first_differing_packet_index": d.firstDiff,
+		}
+		if d.firstDiff >= 0 {
+			desc["expected_len"] = d.expLen
+			desc["expected_head"] = fmt.Sprintf("%x", d.expHead)
+			desc["received_len"] = d.actLen
+			desc["received_head"] = fmt.Sprintf("%x", d.actHead)
+		}
+		out.Add(term, desc, d.nSent >= 1000, "kind=long-run", "version="+res.ver.Name, "dir="+dir, fmt.Sprintf("ta=%d,tb=%d", ta, tb))
+		for j := 0; j < d.nSent; j += 1000 {
+			out.Tag("long-run-packets(x1000):" + dir)
+		}
+	}
+}
+
 func main() {
 	f := lib.ParseFlags()
 	rng := lib.NewRng(f.Seed)
 	out := lib.NewOut("C15", f)
 	out.Imports = "From Verif Require Import Model.Relay.\n"
-	out.Rule = "runs cycle through 8 client versions (1.8, 1.12.2, 1.16.5, 1.19.4, 1.20.1, 1.20.4, 1.21.1, 1.21.4); client-side and backend-side compression thresholds drawn independently from {-1,0,64,256}; per direction 50-200 packets: ids unknown to gate's Play registry for the version (1-3 byte VarInt ids), bodies random or repetitive with sizes 0-40, 41-300, threshold-3..threshold+2 of either side, 300-4096, 8-40 KiB; clientbound also KeepAlive and HeaderAndFooter built by gate's encoders (forwarded as-is), serverbound also unmatched KeepAlive replies (swallowed); both directions sent concurrently, in batches, 2/3 of the runs with the TCP writes cut at random byte positions; one case per direction; non-trivial = at least one packet is compressed on exactly one of the two sides; distinct = distinct case term"
+	out.Rule = "runs cycle through 8 client versions (1.8, 1.12.2, 1.16.5, 1.19.4, 1.20.1, 1.20.4, 1.21.1, 1.21.4); client-side and backend-side compression thresholds drawn independently from {-1,0,64,256}; per direction 50-200 packets: ids unknown to gate's Play registry for the version (1-3 byte VarInt ids), bodies random or repetitive with sizes 0-40, 41-300, threshold-3..threshold+2 of either side, 300-4096, 8-40 KiB; clientbound also KeepAlive and HeaderAndFooter built by gate's encoders (forwarded as-is), serverbound also unmatched KeepAlive replies (swallowed); both directions sent concurrently, in batches, 2/3 of the runs with the TCP writes cut at random byte positions; one case per direction; plus one long run in the same process (client threshold 256, backend threshold 64): 46,000 clientbound then 2,500 serverbound unknown-id packets, 88% just above the receiving side threshold, 9% below, 3% 2-20 KB, compared in Go on (index, length, SHA-256), two summary cases; non-trivial = at least one packet is compressed on exactly one of the two sides; distinct = distinct case term"
 	runs := f.Count(16)
 	seeds := make([]uint64, runs)
 	for i := range seeds {
 		seeds[i] = rng.U64()
 	}
+	longSeed := rng.U64()
+	nDown, nUp := 46000, 2500
+	if f.Tier != "quick" {
+		nDown, nUp = 120000, 10000
+	}
+	longCh := make(chan longResult, 1)
+	go func() { longCh <- longRun(longSeed, nDown, nUp) }()
 	results := e2eb.RunParallel(runs, 16, func(i int) runResult { return oneRun(i, seeds[i]) })
 	for i, res := range results {
 		if res.setupErr != "" {
@@ -408,6 +659,7 @@ func main() {
 		emit(out, i, res, true, res.up, res.upTable)
 		emit(out, i, res, false, res.down, res.dnTable)
 	}
+	emitLong(out, <-longCh)
 	out.Finish()
 }
 
